@@ -35,20 +35,22 @@ VARIABLES
     files,    \* index files on disk: [file id -> set of <<id, conn, version>>]
     indexes,  \* mgr.indexes (sequence of file ids, oldest first)
     use,      \* mgr.usedIndexes: [file id -> Nat], only non-zero entries
-    tags,     \* mgr.tags: [name -> [def, M, U, convs, refBy]]
+    tags,     \* mgr.tags: [name -> [def, M, U, convs, refBy, color]]
     flags,    \* [merge, tag, conv : BOOLEAN]  the three ...JobRunning flags
     during,   \* [upd, res, add] the three ...DuringTaggingJob masks; inv = invalidatedStreamsDuringConverterJob
     unmerge,  \* mgr.nUnmergeableIndexes
     jobs,     \* [import, tag, merge, conv] job records (snapshot taken + result computed)
     views,    \* open views: [view id -> [idx, td]]
     toConv,   \* mgr.streamsToConvert: [converter -> set of ids]
-    cache     \* converter cache files: [converter -> set of <<id, version>>]
+    cache,    \* converter cache files: [converter -> set of <<id, version>>]
+    settings  \* [hooks: Seq(url), eps: Seq(address), cfg: BOOLEAN]  webhook urls, PCAP-over-IP endpoints, Config (all in the state file)
 
 vars == <<known, queue, nextID, allS, files, indexes, use, tags, flags, during,
-          unmerge, jobs, views, toConv, cache>>
+          unmerge, jobs, views, toConv, cache, settings>>
 
 -----------------------------------------------------------------------------
 (* ---------- generic helpers ---------- *)
+Perms(s) == {p \in [DOMAIN s -> {s[i] : i \in DOMAIN s}] : \A x \in {s[i] : i \in DOMAIN s} : \E i \in DOMAIN s : p[i] = x}
 Range(s)  == {s[i] : i \in DOMAIN s}
 Max(S)    == CHOOSE x \in S : \A y \in S : y <= x
 Min(S)    == CHOOSE x \in S : \A y \in S : x <= y
@@ -209,6 +211,7 @@ Init ==
     /\ views = <<>>
     /\ toConv = [c \in ConvNames |-> {}]
     /\ cache = [c \in ConvNames |-> {}]
+    /\ settings = [hooks |-> <<>>, eps |-> <<>>, cfg |-> FALSE]
 
 \* install a bundle (after the closure's start...IfNeeded calls)
 Install(b) ==
@@ -226,7 +229,7 @@ ApiImport(k) ==
             /\ jobs' = [jobs EXCEPT !.import = [NoJob("import") EXCEPT !.phase = "start", !.batch = <<k>>,
                                                                      !.idx = indexes, !.next = nextID]]
        ELSE UNCHANGED <<use, jobs>>
-    /\ UNCHANGED <<known, nextID, allS, files, indexes, tags, flags, during, unmerge, views, toConv, cache>>
+    /\ UNCHANGED <<settings, known, nextID, allS, files, indexes, tags, flags, during, unmerge, views, toConv, cache>>
 
 \* builder.FromPcap on the snapshot (builder.go:98-570): reassembles all known captures plus the batch,
 \* writes the streams touched by the batch into one new index file f, classifies them, reuses ids.
@@ -255,7 +258,7 @@ ImportCompute(f) ==
                     !.res = {newId(c) : c \in {d \in touched : isReset(d)}},
                     !.upd = {newId(c) : c \in {d \in touched \ fresh : ~isReset(d)}},
                     !.used = Cardinality(fresh)]]
-    /\ UNCHANGED <<queue, nextID, allS, indexes, use, tags, flags, during, unmerge, views, toConv, cache>>
+    /\ UNCHANGED <<settings, queue, nextID, allS, indexes, use, tags, flags, during, unmerge, views, toConv, cache>>
 
 \* invalidateConverters (manager.go:1575): cached output of updated streams is dropped and re-queued
 InvalidateConv(tc, ca, upd) ==
@@ -293,7 +296,7 @@ ImportDone(pick) ==
     /\ queue' = q1
     /\ cache' = ic[2]
     /\ Install(b3)
-    /\ UNCHANGED <<known, unmerge, views>>
+    /\ UNCHANGED <<settings, known, unmerge, views>>
 
 -----------------------------------------------------------------------------
 (* ---------- tagging job ---------- *)
@@ -305,7 +308,7 @@ TagCompute ==
     IN
     /\ j.phase = "start"
     /\ jobs' = [jobs EXCEPT !.tag = [j EXCEPT !.phase = "gate", !.M1 = (j.M0 \ j.U0) \cup hit]]
-    /\ UNCHANGED <<known, queue, nextID, allS, files, indexes, use, tags, flags, during, unmerge, views, toConv, cache>>
+    /\ UNCHANGED <<settings, known, queue, nextID, allS, files, indexes, use, tags, flags, during, unmerge, views, toConv, cache>>
 
 \* the closure posted by updateTagJob (manager.go:815-838)
 TagDone(pick) ==
@@ -327,7 +330,7 @@ TagDone(pick) ==
     /\ pick \in TagPicks(tg2, fl1)
     /\ Install([b3 EXCEPT !.use = rel[1]])
     /\ files' = rel[2]
-    /\ UNCHANGED <<known, queue, nextID, allS, indexes, unmerge, views, cache>>
+    /\ UNCHANGED <<settings, known, queue, nextID, allS, indexes, unmerge, views, cache>>
 
 -----------------------------------------------------------------------------
 (* ---------- merge job ---------- *)
@@ -338,7 +341,7 @@ MergeCompute(f) ==
     /\ f \notin DOMAIN files
     /\ files' = With(files, f, Visible(j.idx))
     /\ jobs' = [jobs EXCEPT !.merge = [j EXCEPT !.phase = "gate", !.file = f]]
-    /\ UNCHANGED <<known, queue, nextID, allS, indexes, use, tags, flags, during, unmerge, views, toConv, cache>>
+    /\ UNCHANGED <<settings, known, queue, nextID, allS, indexes, use, tags, flags, during, unmerge, views, toConv, cache>>
 
 \* the closure posted by mergeIndexesJob (manager.go:762-790)
 MergeDone ==
@@ -357,7 +360,7 @@ MergeDone ==
     /\ indexes' = idx1
     /\ Install([b1 EXCEPT !.use = r2[1]])
     /\ files' = r2[2]
-    /\ UNCHANGED <<known, queue, nextID, allS, unmerge, views, cache>>
+    /\ UNCHANGED <<settings, known, queue, nextID, allS, unmerge, views, cache>>
 
 -----------------------------------------------------------------------------
 (* ---------- converter job ---------- *)
@@ -377,7 +380,7 @@ ConvCompute ==
                     ELSE cache[c]]
     /\ jobs' = [jobs EXCEPT !.conv = [j EXCEPT !.phase = "gate",
                     !.ids = [c \in DOMAIN j.ids |-> {s \in j.ids[c] : ~has(c, s) /\ exists(s)}]]]
-    /\ UNCHANGED <<known, queue, nextID, allS, files, indexes, use, tags, flags, during, unmerge, views, toConv>>
+    /\ UNCHANGED <<settings, known, queue, nextID, allS, files, indexes, use, tags, flags, during, unmerge, views, toConv>>
 
 \* the closure posted by convertStreamJob (manager.go:1540-1572)
 ConvDone(pick) ==
@@ -399,13 +402,13 @@ ConvDone(pick) ==
     /\ Install([b2 EXCEPT !.use = rel[1]])
     /\ files' = rel[2]
     /\ cache' = ic[2]
-    /\ UNCHANGED <<known, queue, nextID, allS, indexes, unmerge, views>>
+    /\ UNCHANGED <<settings, known, queue, nextID, allS, indexes, unmerge, views>>
 
 -----------------------------------------------------------------------------
 (* ---------- tag API ----------
    Every call either applies or rejects.  Rejections are separate disjuncts so that
    atomicity (RejectIsNoop) is a property of the model, not an assumption. *)
-NewTag(d, M, U) == [def |-> d, M |-> M, U |-> U, convs |-> {}, refBy |-> {}]
+NewTag(d, M, U, col) == [def |-> d, M |-> M, U |-> U, convs |-> {}, refBy |-> {}, color |-> col]
 AddRefBy(tg, name, rs) == [t \in DOMAIN tg |-> IF t \in rs THEN [tg[t] EXCEPT !.refBy = @ \cup {name}] ELSE tg[t]]
 DelRefBy(tg, name, rs) == [t \in DOMAIN tg |-> IF t \in rs THEN [tg[t] EXCEPT !.refBy = @ \ {name}] ELSE tg[t]]
 RECURSIVE Reaches(_, _, _)
@@ -420,16 +423,16 @@ AddTagOK(name, d) ==
     /\ name \notin Refs(d)
     /\ Refs(d) \subseteq DOMAIN tags
     /\ IsMarkName(name) => d.k = "M"
-AddTag(name, d, pick) ==
+AddTag(name, d, col, pick) ==
     /\ AddTagOK(name, d)
     /\ LET mark == IsMarkName(name)
-           nt == IF mark THEN NewTag(d, MarkIDs(d, nextID), {}) ELSE NewTag(d, {}, allS)
+           nt == IF mark THEN NewTag(d, MarkIDs(d, nextID), {}, col) ELSE NewTag(d, {}, allS, col)
            tg1 == AddRefBy(With(tags, name, nt), name, Refs(d))
            b0 == Bundle(tg1, flags, jobs, use, during, toConv)
            b1 == IF mark THEN b0 ELSE StartTag(b0, indexes, pick)
        IN /\ pick \in (IF mark THEN {""} ELSE TagPicks(With(tags, name, nt), flags))
           /\ Install(b1)
-    /\ UNCHANGED <<known, queue, nextID, allS, files, indexes, unmerge, views, cache>>
+    /\ UNCHANGED <<settings, known, queue, nextID, allS, files, indexes, unmerge, views, cache>>
 
 \* detachConverterFromTag (manager.go:1884-1917) for a set of converters; returns <<toConv', cache'>>
 \* (a converter that no other tag with matches uses is reset: its cache is dropped)
@@ -443,7 +446,7 @@ DelTag(name) ==
     /\ DelTagOK(name)
     /\ LET d == Detach(tags, toConv, cache, name, tags[name].convs) IN toConv' = d[1] /\ cache' = d[2]
     /\ tags' = DelRefBy(Without(tags, name), name, Refs(tags[name].def))
-    /\ UNCHANGED <<known, queue, nextID, allS, files, indexes, use, flags, during, unmerge, jobs, views>>
+    /\ UNCHANGED <<settings, known, queue, nextID, allS, files, indexes, use, flags, during, unmerge, jobs, views>>
 
 \* UpdateTag(converter_set) (manager.go:1237-1262)
 SetConvOK(name, cs) ==
@@ -459,7 +462,7 @@ SetConverters(name, cs) ==
            b0 == Bundle(tg1, flags, jobs, use, during, tc1)
            b1 == StartConv(b0, indexes)
        IN Install(b1) /\ cache' = d[2]
-    /\ UNCHANGED <<known, queue, nextID, allS, files, indexes, unmerge, views>>
+    /\ UNCHANGED <<settings, known, queue, nextID, allS, files, indexes, unmerge, views>>
 
 \* ResetConverter / restartConverterProcess (manager.go:1832-1863)
 ConvReset(c) ==
@@ -468,7 +471,7 @@ ConvReset(c) ==
     /\ LET tc1 == [toConv EXCEPT ![c] = @ \cup UNION {tags[t].M : t \in {u \in DOMAIN tags : c \in tags[u].convs}}]
            b1 == StartConv(Bundle(tags, flags, jobs, use, during, tc1), indexes)
        IN Install(b1)
-    /\ UNCHANGED <<known, queue, nextID, allS, files, indexes, unmerge, views>>
+    /\ UNCHANGED <<settings, known, queue, nextID, allS, files, indexes, unmerge, views>>
 
 \* UpdateTag(change query) (manager.go:1160-1236)
 UpdQueryOK(name, d) ==
@@ -489,7 +492,7 @@ UpdQuery(name, d, pick) ==
            b2 == StartConv(b1, indexes)
        IN /\ pick \in TagPicks(tg2, flags)
           /\ Install(b2)
-    /\ UNCHANGED <<known, queue, nextID, allS, files, indexes, unmerge, views, cache>>
+    /\ UNCHANGED <<settings, known, queue, nextID, allS, files, indexes, unmerge, views, cache>>
 
 \* UpdateTag(mark add / mark del) (manager.go:1263-1332); ids must exist
 MarkOK(name, S) == /\ name \in DOMAIN tags /\ IsMarkName(name) /\ S # {} /\ Max(S) < nextID
@@ -513,7 +516,7 @@ MarkAdd(name, ids, pick) ==
            b2 == StartConv(b1, indexes)
        IN /\ pick \in TagPicks(tg2, flags)
           /\ Install(b2)
-    /\ UNCHANGED <<known, queue, nextID, allS, files, indexes, unmerge, views, cache>>
+    /\ UNCHANGED <<settings, known, queue, nextID, allS, files, indexes, unmerge, views, cache>>
 MarkDel(name, ids, pick) ==
     /\ MarkOK(name, Range(ids))
     /\ LET old == tags[name]
@@ -526,10 +529,55 @@ MarkDel(name, ids, pick) ==
            b2 == StartConv(b1, indexes)
        IN /\ pick \in TagPicks(tg2, flags)
           /\ Install(b2)
-    /\ UNCHANGED <<known, queue, nextID, allS, files, indexes, unmerge, views, cache>>
+    /\ UNCHANGED <<settings, known, queue, nextID, allS, files, indexes, unmerge, views, cache>>
+
+\* UpdateTag(change color) (manager.go, `if info.color != ""`): an empty colour is accepted and changes nothing
+UpdColorOK(name) == name \in DOMAIN tags
+UpdColor(name, col) ==
+    /\ UpdColorOK(name)
+    /\ tags' = [tags EXCEPT ![name].color = IF col = "" THEN @ ELSE col]
+    /\ UNCHANGED <<settings, known, queue, nextID, allS, files, indexes, use, flags, during, unmerge, jobs, views, toConv, cache>>
+
+\* UpdateTag(change name) (manager.go, `if info.name != ""`): same type, a name behind the prefix, not taken, and
+\* nobody references the tag.  The tag record moves to the new key; a tagging job that is in flight for the old
+\* name finds no tag (or another one) under that name when it completes and its result is dropped.
+TagPrefixes == <<"tag/", "service/", "mark/", "generated/">>
+PrefixOf(n) == LET ps == {i \in DOMAIN TagPrefixes : Len(n) >= Len(TagPrefixes[i]) /\ SubSeq(n, 1, Len(TagPrefixes[i])) = TagPrefixes[i]}
+               IN IF ps = {} THEN "" ELSE TagPrefixes[CHOOSE i \in ps : TRUE]
+UpdNameOK(name, new) ==
+    /\ name \in DOMAIN tags
+    /\ new # ""                                  \* (an empty name means "no rename": the call is an accepted no-op, see UpdName)
+    /\ PrefixOf(new) = PrefixOf(name)
+    /\ Len(new) > Len(PrefixOf(new))
+    /\ new \notin DOMAIN tags
+    /\ tags[name].refBy = {}
+UpdName(name, new) ==
+    /\ UpdNameOK(name, new)
+    /\ LET moved == [t \in (DOMAIN tags \ {name}) \cup {new} |-> IF t = new THEN tags[name] ELSE tags[t]]
+       IN tags' = AddRefBy(DelRefBy(moved, name, Refs(tags[name].def)), new, Refs(tags[name].def))
+    /\ UNCHANGED <<settings, known, queue, nextID, allS, files, indexes, use, flags, during, unmerge, jobs, views, toConv, cache>>
 
 \* a rejected call: nothing changes (what the property demands; the harness reports what the code did)
 Rejected == UNCHANGED vars
+
+-----------------------------------------------------------------------------
+(* ---------- settings: webhooks, PCAP-over-IP endpoints, Config (manager.go SetConfig, Add/DelPcapProcessorWebhook,
+   Add/DelPcapOverIPEndpoint).  Each call saves the state file before it returns. ---------- *)
+SeqWithout(s, x) == LET RECURSIVE go(_)
+                        go(i) == IF i > Len(s) THEN <<>> ELSE (IF s[i] = x THEN <<>> ELSE <<s[i]>>) \o go(i + 1)
+                    IN go(1)
+OtherUnchanged == UNCHANGED <<known, queue, nextID, allS, files, indexes, use, tags, flags, during, unmerge, jobs, views, toConv, cache>>
+AddHookOK(u) == u \notin Range(settings.hooks)
+AddHook(u)   == AddHookOK(u) /\ settings' = [settings EXCEPT !.hooks = Append(@, u)] /\ OtherUnchanged
+DelHookOK(u) == u \in Range(settings.hooks)
+DelHook(u)   == DelHookOK(u) /\ settings' = [settings EXCEPT !.hooks = SeqWithout(@, u)] /\ OtherUnchanged
+\* an address must be host:port (net.SplitHostPort)
+AddrValid(a) == \E i \in 1 .. Len(a) : SubSeq(a, i, i) = ":"
+AddEndpointOK(a) == AddrValid(a) /\ a \notin Range(settings.eps)
+AddEndpoint(a)   == AddEndpointOK(a) /\ settings' = [settings EXCEPT !.eps = Append(@, a)] /\ OtherUnchanged
+DelEndpointOK(a) == a \in Range(settings.eps)
+DelEndpoint(a)   == DelEndpointOK(a) /\ settings' = [settings EXCEPT !.eps = SeqWithout(@, a)] /\ OtherUnchanged
+SetConfig(b)     == settings' = [settings EXCEPT !.cfg = b] /\ OtherUnchanged
 
 -----------------------------------------------------------------------------
 (* ---------- views ---------- *)
@@ -538,19 +586,19 @@ ViewOpen(v) ==
     /\ v \notin DOMAIN views
     /\ views' = With(views, v, [idx |-> indexes, td |-> [t \in DOMAIN tags |-> [M |-> tags[t].M, U |-> tags[t].U]]])
     /\ use' = LockSeq(use, indexes)
-    /\ UNCHANGED <<known, queue, nextID, allS, files, indexes, tags, flags, during, unmerge, jobs, toConv, cache>>
+    /\ UNCHANGED <<settings, known, queue, nextID, allS, files, indexes, tags, flags, during, unmerge, jobs, toConv, cache>>
 ViewRelease(v) ==
     /\ v \in DOMAIN views
     /\ LET rel == ReleaseSeq(use, files, views[v].idx) IN use' = rel[1] /\ files' = rel[2]
     /\ views' = Without(views, v)
-    /\ UNCHANGED <<known, queue, nextID, allS, indexes, tags, flags, during, unmerge, jobs, toConv, cache>>
+    /\ UNCHANGED <<settings, known, queue, nextID, allS, indexes, tags, flags, during, unmerge, jobs, toConv, cache>>
 \* StreamContext.Data(converter) (manager.go:2552-2577): converts on demand, outside the loop, from the view's snapshot
 ViewConvert(v, s, c) ==
     /\ v \in DOMAIN views /\ c \in DOMAIN cache
     /\ \E e \in Visible(views[v].idx) : e[1] = s
     /\ LET ver == (CHOOSE e \in Visible(views[v].idx) : e[1] = s)[3] IN
        cache' = [cache EXCEPT ![c] = IF \E x \in @ : x[1] = s THEN @ ELSE @ \cup {<<s, ver>>}]
-    /\ UNCHANGED <<known, queue, nextID, allS, files, indexes, use, tags, flags, during, unmerge, jobs, views, toConv>>
+    /\ UNCHANGED <<settings, known, queue, nextID, allS, files, indexes, use, tags, flags, during, unmerge, jobs, views, toConv>>
 
 -----------------------------------------------------------------------------
 (* ---------- process kill and restart (manager.go:233-466, New; builder.go:37-97) ----------
@@ -563,7 +611,7 @@ ViewConvert(v, s, c) ==
    of tags with converters, and runs the three start...IfNeeded calls.  Captures that were only queued are known
    to the new builder (it lists the directory) but are never imported.
      ord : the loadable index files in file-name order     T : the tag table that is loaded *)
-Durable(tg) == [t \in DOMAIN tg |-> [def |-> tg[t].def, M |-> tg[t].M, convs |-> tg[t].convs]]
+Durable(tg) == [t \in DOMAIN tg |-> [def |-> tg[t].def, M |-> tg[t].M, convs |-> tg[t].convs, color |-> tg[t].color]]
 AfterRestart(F, ord, T, ca, kn, q, pick) ==
     LET ents == UNION {ContentOf(F, ord[i]) : i \in DOMAIN ord}
         nxt  == IF ents = {} THEN 0 ELSE Max(IdsOf(ents)) + 1
@@ -573,7 +621,8 @@ AfterRestart(F, ord, T, ca, kn, q, pick) ==
                      M |-> IF IsMarkName(t) THEN MarkIDs(T[t].def, nxt) ELSE T[t].M,
                      U |-> IF IsMarkName(t) THEN {} ELSE all,
                      convs |-> T[t].convs,
-                     refBy |-> {u \in DOMAIN T : t \in Refs(T[u].def)}]]
+                     refBy |-> {u \in DOMAIN T : t \in Refs(T[u].def)},
+                     color |-> T[t].color]]
         tc0  == [c \in DOMAIN ca |-> UNION {tg0[t].M : t \in {u \in DOMAIN tg0 : c \in tg0[u].convs}}]
         b0   == Bundle(tg0, [merge |-> FALSE, tag |-> FALSE, conv |-> FALSE],
                        [k \in {"import", "tag", "merge", "conv"} |-> NoJob(k)],
@@ -582,13 +631,15 @@ AfterRestart(F, ord, T, ca, kn, q, pick) ==
         b2   == StartConv(b1, ord)
     IN [known |-> kn \cup Range(q), nextID |-> nxt, allS |-> all, indexes |-> ord, tg0 |-> tg0,
         bundle |-> StartMerge(b2, ord, F, 0)]
-Restart(ord, T, pick) ==
+\* S: the settings of the state file that is loaded (the endpoints come back as a set: New() ranges over a map)
+Restart(ord, T, S, pick) ==
     LET n == AfterRestart(files, ord, T, cache, known, queue, pick) IN
     /\ Range(ord) \subseteq DOMAIN files
     /\ pick \in TagPicks(n.tg0, [merge |-> FALSE, tag |-> FALSE, conv |-> FALSE])
     /\ known' = n.known /\ queue' = <<>> /\ nextID' = n.nextID /\ allS' = n.allS
     /\ indexes' = n.indexes /\ unmerge' = 0 /\ views' = <<>>
     /\ Install(n.bundle)
+    /\ settings' \in [hooks : {S.hooks}, cfg : {S.cfg}, eps : Perms(S.eps)]
     /\ UNCHANGED <<files, cache>>
 
 -----------------------------------------------------------------------------
